@@ -5558,7 +5558,8 @@ class CodegenCtx:
             if chr(i) in ["\\", '"']:
                 result += "\\" + chr(i)
             elif not (32 <= i < 127):
-                result += "\\x{:02x}".format(i)
+                # octal escapes are at most three digits long; a hex escape would swallow any hex digits that follow it
+                result += "\\{:03o}".format(i)
             else:
                 result += chr(i)
         return result
